@@ -4,14 +4,17 @@ import (
 	"bytes"
 	"fmt"
 	"go/ast"
+	"go/importer"
 	"go/parser"
 	"go/printer"
 	"go/token"
+	"go/types"
 	"io"
 	"io/fs"
 	"os"
 	"os/exec"
 	"path/filepath"
+	"reflect"
 	"strconv"
 	"strings"
 )
@@ -82,18 +85,82 @@ type rewriteStats struct {
 	Points    int // inner yield points inserted
 }
 
-// rewriteFile applies both source transformations to one Go file of the
-// scratch copy: (1) every reference to sync.Pool is re-pointed to the stub
-// simrt.Pool; (2) inner yield points: simrt.Point() before every statement of
-// every function body, simrt.Locked()/Unlocking() around the library's own
-// critical sections, and "go f()" turned into simrt.Spawn so that goroutines
-// the library starts stay under the scheduler's control.
-func rewriteFile(path string) (poolRefs, points int, err error) {
-	fset := token.NewFileSet()
-	f, err := parser.ParseFile(fset, path, nil, parser.ParseComments)
+// rewriteDir applies the source transformations to one package directory of
+// the scratch copy:
+//
+//  1. every reference to sync.Pool is re-pointed to the stub simrt.Pool;
+//  2. inner yield points: simrt.Point() before every statement of every
+//     function body;
+//  3. blocking operations become cooperative (so that a task that cannot
+//     proceed hands control back to the scheduler instead of parking inside
+//     the Go runtime): sync.Mutex/RWMutex Lock/RLock, sync.Locker.Lock,
+//     sync.Cond.Wait, channel send/receive/range, blocking select;
+//     once.Do is bracketed (no inner pre-emption while it runs);
+//  4. "go f()" becomes simrt.Spawn (the goroutine is a simulated task);
+//  5. time.Now/Since/Until/Sleep/After/Tick read the simulated clock.
+//
+// Rules 3 and 5 need type information (go/types with the source importer,
+// offline); if the package does not type-check, rule 3 degrades to
+// name-based bracketing of x.Lock()/x.Unlock() and rule 5 is skipped.
+func rewriteDir(dir string) (poolRefs, points int, err error) {
+	ents, err := os.ReadDir(dir)
 	if err != nil {
 		return 0, 0, err
 	}
+	fset := token.NewFileSet()
+	var files []*ast.File
+	var paths []string
+	for _, e := range ents {
+		if e.IsDir() || !strings.HasSuffix(e.Name(), ".go") {
+			continue
+		}
+		p := filepath.Join(dir, e.Name())
+		f, err := parser.ParseFile(fset, p, nil, parser.ParseComments)
+		if err != nil {
+			return 0, 0, err
+		}
+		files = append(files, f)
+		paths = append(paths, p)
+	}
+	if len(files) == 0 {
+		return 0, 0, nil
+	}
+	filesSeen += len(files)
+	info := &types.Info{Types: map[ast.Expr]types.TypeAndValue{}, Selections: map[*ast.SelectorExpr]*types.Selection{}, Uses: map[*ast.Ident]types.Object{}}
+	typed := true
+	conf := types.Config{Importer: importer.ForCompiler(fset, "source", nil), Error: func(error) { typed = false }}
+	func() {
+		defer func() {
+			if recover() != nil {
+				typed = false
+			}
+		}()
+		wd, _ := os.Getwd()
+		os.Chdir(dir)
+		defer os.Chdir(wd)
+		conf.Check("scratch/"+filepath.Base(dir), fset, files, info)
+	}()
+	rw := &rewriter{info: info, typed: typed && os.Getenv("VERIF_NO_TYPES") == ""}
+	for i, f := range files {
+		n, pts, err := rw.file(fset, f, paths[i])
+		if err != nil {
+			return 0, 0, err
+		}
+		poolRefs += n
+		points += pts
+	}
+	return poolRefs, points, nil
+}
+
+var filesSeen int
+
+type rewriter struct {
+	info  *types.Info
+	typed bool
+	n     int
+}
+
+func (rw *rewriter) file(fset *token.FileSet, f *ast.File, path string) (poolRefs, points int, err error) {
 	syncName := ""
 	var syncSpec *ast.ImportSpec
 	haveSimrt := false
@@ -130,8 +197,13 @@ func rewriteFile(path string) (poolRefs, points int, err error) {
 			return true
 		})
 	}
+	timeTouched := false
 	if os.Getenv("VERIF_NO_INNER") == "" {
-		points = instrument(f)
+		if rw.typed {
+			timeTouched = rw.retime(f)
+			rw.recvExprs(f)
+		}
+		points = rw.instrument(f)
 	}
 	if poolRefs == 0 && points == 0 {
 		return 0, 0, nil
@@ -144,7 +216,6 @@ func rewriteFile(path string) (poolRefs, points int, err error) {
 		} else {
 			spec := &ast.ImportSpec{Name: ast.NewIdent("simrt"), Path: &ast.BasicLit{Kind: token.STRING, Value: strconv.Quote("verif.local/simrt")}}
 			gd := &ast.GenDecl{Tok: token.IMPORT, Specs: []ast.Spec{spec}}
-			// a new import declaration right after the last existing one (or first)
 			at := 0
 			for i, d := range f.Decls {
 				if g, ok := d.(*ast.GenDecl); ok && g.Tok == token.IMPORT {
@@ -155,10 +226,12 @@ func rewriteFile(path string) (poolRefs, points int, err error) {
 			f.Imports = append(f.Imports, spec)
 		}
 	}
+	if timeTouched {
+		// keep the "time" import used whatever was re-pointed
+		f.Decls = append(f.Decls, &ast.GenDecl{Tok: token.VAR, Specs: []ast.Spec{&ast.ValueSpec{
+			Names: []*ast.Ident{ast.NewIdent("_")}, Type: &ast.SelectorExpr{X: ast.NewIdent("time"), Sel: ast.NewIdent("Duration")}}}})
+	}
 	var buf bytes.Buffer
-	// Comments are dropped from the rewritten copy: after inserting statements
-	// their positions would be meaningless (and //go: directives are re-added
-	// nowhere: the library has none on functions).
 	f.Comments = nil
 	if err := printer.Fprint(&buf, fset, f); err != nil {
 		return 0, 0, err
@@ -166,12 +239,149 @@ func rewriteFile(path string) (poolRefs, points int, err error) {
 	return poolRefs, points, os.WriteFile(path, buf.Bytes(), 0o644)
 }
 
-func simrtCall(name string) ast.Stmt {
-	return &ast.ExprStmt{X: &ast.CallExpr{Fun: &ast.SelectorExpr{X: ast.NewIdent("simrt"), Sel: ast.NewIdent(name)}}}
+func simrtFn(name string) ast.Expr {
+	return &ast.SelectorExpr{X: ast.NewIdent("simrt"), Sel: ast.NewIdent(name)}
 }
 
-// lockKind classifies a call expression by method name: +1 acquires, -1
-// releases, 2 = once.Do style (holds an internal lock while running f).
+func simrtCall(name string, args ...ast.Expr) ast.Stmt {
+	return &ast.ExprStmt{X: &ast.CallExpr{Fun: simrtFn(name), Args: args}}
+}
+
+// retime re-points time.Now/Since/Until/Sleep/After/Tick to the simulated clock.
+func (rw *rewriter) retime(f *ast.File) bool {
+	touched := false
+	ast.Inspect(f, func(node ast.Node) bool {
+		sel, ok := node.(*ast.SelectorExpr)
+		if !ok {
+			return true
+		}
+		id, ok := sel.X.(*ast.Ident)
+		if !ok {
+			return true
+		}
+		pn, ok := rw.info.Uses[id].(*types.PkgName)
+		if !ok || pn.Imported().Path() != "time" {
+			return true
+		}
+		switch sel.Sel.Name {
+		case "Now", "Since", "Until", "Sleep", "After", "Tick":
+			id.Name = "simrt"
+			touched = true
+		}
+		return true
+	})
+	return touched
+}
+
+func (rw *rewriter) isChan(e ast.Expr) bool {
+	if !rw.typed {
+		return false
+	}
+	t := rw.info.TypeOf(e)
+	if t == nil {
+		return false
+	}
+	_, ok := t.Underlying().(*types.Chan)
+	return ok
+}
+
+// recvExprs replaces every receive expression "<-ch" outside the
+// communication clauses of select statements by simrt.Recv(ch).
+func (rw *rewriter) recvExprs(f *ast.File) {
+	protected := map[ast.Node]bool{}
+	ast.Inspect(f, func(n ast.Node) bool {
+		if cc, ok := n.(*ast.CommClause); ok && cc.Comm != nil {
+			ast.Inspect(cc.Comm, func(m ast.Node) bool {
+				if m != nil {
+					protected[m] = true
+				}
+				return true
+			})
+		}
+		return true
+	})
+	exprT := reflect.TypeOf((*ast.Expr)(nil)).Elem()
+	fix := func(e ast.Expr) ast.Expr {
+		u, ok := e.(*ast.UnaryExpr)
+		if !ok || u.Op != token.ARROW || protected[u] || !rw.isChan(u.X) {
+			return e
+		}
+		return &ast.CallExpr{Fun: simrtFn("Recv"), Args: []ast.Expr{u.X}}
+	}
+	ast.Inspect(f, func(n ast.Node) bool {
+		if n == nil || protected[n] {
+			return !protected[n]
+		}
+		if as, ok := n.(*ast.AssignStmt); ok && len(as.Lhs) == 2 && len(as.Rhs) == 1 {
+			if u, ok := as.Rhs[0].(*ast.UnaryExpr); ok && u.Op == token.ARROW && rw.isChan(u.X) {
+				as.Rhs[0] = &ast.CallExpr{Fun: simrtFn("Recv2"), Args: []ast.Expr{u.X}}
+				return true
+			}
+		}
+		if vs, ok := n.(*ast.ValueSpec); ok && len(vs.Names) == 2 && len(vs.Values) == 1 {
+			if u, ok := vs.Values[0].(*ast.UnaryExpr); ok && u.Op == token.ARROW && rw.isChan(u.X) {
+				vs.Values[0] = &ast.CallExpr{Fun: simrtFn("Recv2"), Args: []ast.Expr{u.X}}
+				return true
+			}
+		}
+		v := reflect.ValueOf(n)
+		if v.Kind() != reflect.Ptr || v.IsNil() {
+			return true
+		}
+		v = v.Elem()
+		if v.Kind() != reflect.Struct {
+			return true
+		}
+		for i := 0; i < v.NumField(); i++ {
+			fl := v.Field(i)
+			switch {
+			case fl.Type() == exprT && !fl.IsNil():
+				if ne := fix(fl.Interface().(ast.Expr)); ne != fl.Interface().(ast.Expr) {
+					fl.Set(reflect.ValueOf(ne))
+				}
+			case fl.Kind() == reflect.Slice && fl.Type().Elem() == exprT:
+				for j := 0; j < fl.Len(); j++ {
+					el := fl.Index(j)
+					if el.IsNil() {
+						continue
+					}
+					if ne := fix(el.Interface().(ast.Expr)); ne != el.Interface().(ast.Expr) {
+						el.Set(reflect.ValueOf(ne))
+					}
+				}
+			}
+		}
+		return true
+	})
+}
+
+// syncMethod returns the full name of the sync method a call invokes, e.g.
+// "(*sync.Mutex).Lock", or "" (typed mode only).
+func (rw *rewriter) syncMethod(e ast.Expr) (string, *ast.SelectorExpr) {
+	call, ok := e.(*ast.CallExpr)
+	if !ok {
+		return "", nil
+	}
+	sel, ok := call.Fun.(*ast.SelectorExpr)
+	if !ok {
+		return "", nil
+	}
+	if !rw.typed {
+		return "", sel
+	}
+	si := rw.info.Selections[sel]
+	if si == nil {
+		return "", sel
+	}
+	fn, ok := si.Obj().(*types.Func)
+	if !ok || fn.Pkg() == nil || fn.Pkg().Path() != "sync" {
+		return "", sel
+	}
+	return fn.FullName(), sel
+}
+
+// lockKind classifies a call by method name only (untyped fallback): +1
+// acquires, -1 releases, 2 = once.Do style.
 func lockKind(e ast.Expr) int {
 	call, ok := e.(*ast.CallExpr)
 	if !ok {
@@ -198,31 +408,120 @@ func lockKind(e ast.Expr) int {
 	return 0
 }
 
-// instrument inserts the inner yield points into every function body.
-func instrument(f *ast.File) int {
+func hasUnlabeledContinue(stmts []ast.Stmt) bool {
+	found := false
+	for _, s := range stmts {
+		ast.Inspect(s, func(n ast.Node) bool {
+			switch b := n.(type) {
+			case *ast.ForStmt, *ast.RangeStmt, *ast.FuncLit:
+				return false // continue inside binds to the inner loop
+			case *ast.BranchStmt:
+				if (b.Tok == token.CONTINUE || b.Tok == token.BREAK) && b.Label == nil {
+					if b.Tok == token.CONTINUE {
+						found = true
+					}
+				}
+			}
+			return true
+		})
+	}
+	return found
+}
+
+// instrument inserts the inner yield points and the cooperative forms.
+func (rw *rewriter) instrument(f *ast.File) int {
 	n := 0
 	var list func(stmts []ast.Stmt) []ast.Stmt
 	var walk func(node ast.Node)
+	methodValue := func(sel *ast.SelectorExpr, name string) ast.Expr {
+		return &ast.SelectorExpr{X: sel.X, Sel: ast.NewIdent(name)}
+	}
 	rewriteStmt := func(s ast.Stmt) []ast.Stmt {
 		switch st := s.(type) {
 		case *ast.ExprStmt:
-			switch lockKind(st.X) {
-			case 1:
-				return []ast.Stmt{s, simrtCall("Locked")}
-			case -1:
-				return []ast.Stmt{simrtCall("Unlocking"), s}
-			case 2:
-				return []ast.Stmt{simrtCall("Locked"), s, simrtCall("Unlocking")}
+			if full, sel := rw.syncMethod(st.X); full != "" {
+				switch full {
+				case "(*sync.Mutex).Lock", "(*sync.RWMutex).Lock":
+					return []ast.Stmt{simrtCall("CoopLock", methodValue(sel, "TryLock"), methodValue(sel, "Lock"))}
+				case "(*sync.RWMutex).RLock":
+					return []ast.Stmt{simrtCall("CoopLock", methodValue(sel, "TryRLock"), methodValue(sel, "RLock"))}
+				case "(sync.Locker).Lock":
+					return []ast.Stmt{simrtCall("LockLocker", sel.X)}
+				case "(sync.Locker).Unlock":
+					return []ast.Stmt{simrtCall("Unlocking"), s}
+				case "(*sync.Cond).Wait":
+					return []ast.Stmt{simrtCall("CondWaitWith", methodValue(sel, "Wait"), &ast.SelectorExpr{X: sel.X, Sel: ast.NewIdent("L")})}
+				case "(*sync.Once).Do":
+					return []ast.Stmt{simrtCall("Locked"), s, simrtCall("Unlocking")}
+				}
+				return []ast.Stmt{s}
+			}
+			if !rw.typed {
+				switch lockKind(st.X) {
+				case 1:
+					return []ast.Stmt{s, simrtCall("Locked")}
+				case -1:
+					return []ast.Stmt{simrtCall("Unlocking"), s}
+				case 2:
+					return []ast.Stmt{simrtCall("Locked"), s, simrtCall("Unlocking")}
+				}
+			}
+		case *ast.SendStmt:
+			if rw.isChan(st.Chan) {
+				return []ast.Stmt{simrtCall("Send", st.Chan, st.Value)}
 			}
 		case *ast.DeferStmt:
-			if lockKind(st.Call) == -1 {
+			full, _ := rw.syncMethod(st.Call)
+			if full == "(sync.Locker).Unlock" || (!rw.typed && lockKind(st.Call) == -1) {
 				body := &ast.BlockStmt{List: []ast.Stmt{simrtCall("Unlocking"), &ast.ExprStmt{X: st.Call}}}
 				st.Call = &ast.CallExpr{Fun: &ast.FuncLit{Type: &ast.FuncType{Params: &ast.FieldList{}}, Body: body}}
+			}
+		case *ast.RangeStmt:
+			if rw.isChan(st.X) {
+				// for k := range ch { body }  ->  for { k, ok := simrt.Recv2(ch); if !ok { break }; body }
+				ok := ast.NewIdent("simrtOk" + strconv.Itoa(n))
+				n++
+				var key ast.Expr = ast.NewIdent("_")
+				tok := token.DEFINE
+				if st.Key != nil {
+					key = st.Key
+					tok = st.Tok
+				}
+				var pre []ast.Stmt
+				if tok == token.ASSIGN {
+					pre = append(pre, &ast.DeclStmt{Decl: &ast.GenDecl{Tok: token.VAR, Specs: []ast.Spec{&ast.ValueSpec{Names: []*ast.Ident{ok}, Type: ast.NewIdent("bool")}}}})
+				}
+				recv := &ast.AssignStmt{Lhs: []ast.Expr{key, ok}, Tok: tok, Rhs: []ast.Expr{&ast.CallExpr{Fun: simrtFn("Recv2"), Args: []ast.Expr{st.X}}}}
+				brk := &ast.IfStmt{Cond: &ast.UnaryExpr{Op: token.NOT, X: ok}, Body: &ast.BlockStmt{List: []ast.Stmt{&ast.BranchStmt{Tok: token.BREAK}}}}
+				body := &ast.BlockStmt{List: append(append(pre, recv, brk), st.Body.List...)}
+				return []ast.Stmt{&ast.ForStmt{Body: body}}
+			}
+		case *ast.SelectStmt:
+			// a select without default blocks: add "default: Blocked()" and loop
+			hasDefault := false
+			var bodies []ast.Stmt
+			for _, c := range st.Body.List {
+				cc := c.(*ast.CommClause)
+				if cc.Comm == nil {
+					hasDefault = true
+				}
+				bodies = append(bodies, cc.Body...)
+			}
+			if rw.typed && !hasDefault && len(st.Body.List) > 0 && !hasUnlabeledContinue(bodies) {
+				again := &ast.CommClause{Body: []ast.Stmt{
+					&ast.IfStmt{Cond: &ast.UnaryExpr{Op: token.NOT, X: &ast.CallExpr{Fun: simrtFn("Blocked")}}, Body: &ast.BlockStmt{List: []ast.Stmt{simrtCall("RealBlock")}}},
+					&ast.BranchStmt{Tok: token.CONTINUE},
+				}}
+				st.Body.List = append(st.Body.List, again)
+				return []ast.Stmt{&ast.ForStmt{Body: &ast.BlockStmt{List: []ast.Stmt{st, &ast.BranchStmt{Tok: token.BREAK}}}}}
 			}
 		case *ast.GoStmt:
 			// go f(args) -> simrt.Spawn(func() { f(args) }) with the arguments
 			// evaluated at the go statement, as the language requires.
 			call := st.Call
+			if call.Ellipsis.IsValid() {
+				return []ast.Stmt{s} // variadic spread: leave as is
+			}
 			var pre []ast.Stmt
 			for i, a := range call.Args {
 				if _, lit := a.(*ast.BasicLit); lit {
@@ -233,13 +532,7 @@ func instrument(f *ast.File) int {
 				call.Args[i] = name
 			}
 			n++
-			spawn := &ast.ExprStmt{X: &ast.CallExpr{
-				Fun:  &ast.SelectorExpr{X: ast.NewIdent("simrt"), Sel: ast.NewIdent("Spawn")},
-				Args: []ast.Expr{&ast.FuncLit{Type: &ast.FuncType{Params: &ast.FieldList{}}, Body: &ast.BlockStmt{List: []ast.Stmt{&ast.ExprStmt{X: call}}}}},
-			}}
-			if call.Ellipsis.IsValid() {
-				return []ast.Stmt{s} // variadic spread: leave as is
-			}
+			spawn := simrtCall("Spawn", &ast.FuncLit{Type: &ast.FuncType{Params: &ast.FieldList{}}, Body: &ast.BlockStmt{List: []ast.Stmt{&ast.ExprStmt{X: call}}}})
 			return append(pre, spawn)
 		}
 		return []ast.Stmt{s}
@@ -250,6 +543,14 @@ func instrument(f *ast.File) int {
 			walk(s)
 			out = append(out, simrtCall("Point"))
 			n++
+			if ls, ok := s.(*ast.LabeledStmt); ok {
+				// keep the label on the (possibly rewritten) statement
+				rs := rewriteStmt(ls.Stmt)
+				ls.Stmt = rs[len(rs)-1]
+				out = append(out, rs[:len(rs)-1]...)
+				out = append(out, ls)
+				continue
+			}
 			out = append(out, rewriteStmt(s)...)
 		}
 		return out
@@ -307,7 +608,6 @@ func instrument(f *ast.File) int {
 				walk(fd.Body)
 			}
 		case *ast.GenDecl:
-			// function literals in package-level initialisers
 			walk(fd)
 		}
 	}
@@ -332,16 +632,22 @@ func prepare(scratch string) (rewriteStats, error) {
 	if err != nil {
 		return st, err
 	}
+	for _, kv := range goEnv() {
+		if k, v, ok := strings.Cut(kv, "="); ok && strings.HasPrefix(k, "GO") {
+			os.Setenv(k, v) // the source importer runs "go list" for module-aware import resolution
+		}
+	}
+	filesSeen = 0
 	err = filepath.WalkDir(sig, func(p string, d fs.DirEntry, err error) error {
-		if err != nil || d.IsDir() || !strings.HasSuffix(p, ".go") {
+		if err != nil || !d.IsDir() {
 			return err
 		}
-		st.Files++
-		n, pts, err := rewriteFile(p)
+		n, pts, err := rewriteDir(p)
 		st.Rewritten += n
 		st.Points += pts
 		return err
 	})
+	st.Files = filesSeen
 	if err != nil {
 		return st, err
 	}
